@@ -83,8 +83,10 @@ def segment_anomaly(v, seg):
 @lru_cache(maxsize=None)
 def field_rows(v, seg):
     """[(declared_index, Row)] in table order.  declared_index is the number in the field's name."""
-    ref = libs()[v].SEGMENTS[seg]
     out = []
+    if seg not in libs()[v].SEGMENTS:   # a Z segment or a name the version does not define: no table rows
+        return out
+    ref = libs()[v].SEGMENTS[seg]
     if segment_anomaly(v, seg):
         return out
     for raw in ref[1]:
